@@ -10,18 +10,35 @@ PROPERTIES = {
                 "file included) and each of the 20 analyzers that the model of the pass returns, without panic, exactly the "
                 "ordered list of diagnostics that its declarative rule owes (run = Ok spec: soundness, completeness, "
                 "multiplicity, order), and that this list is empty iff the rule - written out in logic for all 20 passes - "
-                "holds. The model is tied to the analyzers on every run: seeded DBC texts with 0/1/many violations of each "
-                "rule, pairwise interactions and degenerate files are parsed by the real parser, all 20 Analyzer.Run are "
-                "executed (panics caught), and position + message kind of every diagnostic are compared with the extracted "
-                "model; the harness also checks that no pass modifies the File, that the reverse pass order gives the same "
-                "diagnostics, and the exit status of the real `cantool lint` binary on a subsample.",
-        "note": "Trusted: Coq 8.16.1 kernel; extraction (ExtrOcamlBasic) + OCaml 4.13.1; the hand-written model Dbc/Lint.v "
-                "(validated by the correspondence run); Go harness / OCaml driver / check.py glue. Oracles modelled, not "
-                "verified, and compared with Go on every run: UTF-8 decoding of `range`, unicode.IsDigit/IsUpper "
+                "holds; and for the `lint` command of cmd/cantool through which a user runs them (model Dbc/LintCli.v) that its "
+                "source-line function is total on every text and every offset 0..len, returns the LF-free contiguous slice "
+                "around the offset (C18_source_line_*), and that the command prints, file by file and for the 19 analyzers in "
+                "their order, one block per owed diagnostic, never crashes and ends with 'one or more lint errors' iff some "
+                "analyzer reports (C18_cantool_lint_output; hypothesis: printed positions lie inside their text). The models "
+                "are tied to the code on every run: seeded DBC texts with 0/1/many violations of each rule (redundant "
+                "singleton definitions at any place, files starting with BO_), pairwise interactions, degenerate and boundary "
+                "files are parsed by the real parser, all 20 Analyzer.Run are executed (panics caught), and position + "
+                "message kind of every diagnostic are compared with the extracted model; the harness also checks that no pass "
+                "modifies the File and that the reverse pass order gives the same diagnostics; and the real `cantool lint` "
+                "binary is run on the degenerate/boundary files one by one (empty, blank, last line without line feed with a "
+                "diagnostic in column 1 / > 1, diagnostic on line 1, CRLF/CR endings, truncated files = parse errors at the "
+                "end, one file per analyzer with only that analyzer reporting, exactly 1/2/255/256/257/512 diagnostics, many "
+                "diagnostics of many passes) and on a sample of the other files in directory batches: exit status, standard "
+                "error and the COMPLETE standard output are compared byte for byte with the output the extracted "
+                "cantool_lint_output owes; a Go panic is a violation with the file as replay.",
+        "note": "Trusted: Coq 8.16.1 kernel; extraction (ExtrOcamlBasic) + OCaml 4.13.1; the hand-written models Dbc/Lint.v and "
+                "Dbc/LintCli.v (validated by the correspondence run); Go harness / OCaml driver / check.py glue. Oracles modelled, "
+                "not verified, and compared with Go on every run: UTF-8 decoding of `range`, unicode.IsDigit/IsUpper "
                 "(parameters of the theorems; the driver fills them from Go's tables), strings.HasPrefix/HasSuffix, float64 "
-                "`>`, int64(float64) on amd64, %d length. The model consumes the definitions parsed by the real parser "
-                "(parser fidelity is C04). Message wording is not compared (only the call site = kind, and the node name / "
-                "interval / max value where the text carries them). Print Assumptions: closed under the global context.",
+                "`>`, int64(float64) on amd64, %d length. The model consumes the definitions (and, for a file the parser "
+                "rejects, the error position) produced by the real parser (parser fidelity is C04; that positions lie inside "
+                "the text is the hypothesis file_printable of C18_cantool_lint_output, observed on every linted file). Message "
+                "wording is not compared (only the call site = kind, and the node name / interval / max value where the text "
+                "carries them); in the cantool output the wording of each message is taken from the in-process run of the "
+                "same analyzer, everything else (order, file:line:col, analyzer name, source line, caret column, exit status) "
+                "from the model. Not expressible in the functional model and only observed: colour escape codes are off when "
+                "stdout is not a terminal; filepath.Walk order and the .dbc filter of a directory argument (decoy files in "
+                "every batch); process exit status width. Print Assumptions: closed under the global context.",
         "technique": "Coq proof about a Gallina model + differential correspondence of model and code",
         "design_ref": "5.18",
     },
@@ -29,9 +46,13 @@ PROPERTIES = {
 
 RULE = ("per generated file and per analyzer one evaluation (ordered diagnostics list: line, column, message kind); "
         "non-trivial = the model owes at least one diagnostic; plus one file-level evaluation (File unchanged, reverse "
-        "pass order) and, on a subsample, one `cantool lint` exit-status evaluation; oracle observations (runes, "
+        "pass order) and, for every file linted by the real `cantool lint` binary (alone, or as a member of a "
+        "directory batch), one evaluation of exit status + stderr + complete stdout against cantool_lint_output (kind cli; "
+        "cli-only:<analyzer> / cli-count:<n> mark the promised boundary files); oracle observations (runes, "
         "IsCamelCase, float >, int64(float), prefix/suffix) counted under kinds oracle-*; distinct by line hash. "
-        "Files: degenerate (empty, blank, CRLF-only, unknown lines only, metadata only), clean, each rule x {1, many}, "
+        "Files: degenerate (empty, blank, CRLF-only, unknown lines only, metadata only), boundary (diagnostic on a last "
+        "line without line feed in column 1 / > 1, on line 1, CR/CRLF layouts, truncated texts, one analyzer only, exact "
+        "diagnostic counts around 256, many passes), clean, each rule x {1, many}, "
         "pairs of rules, random mixes, and `synthetic` (parsed definitions perturbed in memory to values the parser "
         "cannot produce; a difference there is reported as a broken correspondence, not as a failing input).")
 
@@ -43,12 +64,24 @@ ASSUMPTIONS = [
     "Go semantics modelled as oracles: range-over-string UTF-8 decoding, unicode.IsDigit/IsUpper tables (dumped from Go at run "
     "time), strings.HasPrefix/HasSuffix, float64 comparison, int64(float64) as compiled for amd64, fmt %d",
     "diagnostic wording is outside the property: only position and message kind are compared",
+    "the Gallina model Dbc/LintCli.v is a faithful transcription of lintCommand / printError / getSourceLine / "
+    "caretAtPosition / analyzers() of cmd/cantool/main.go: checked on every run by the byte-exact comparison of the real "
+    "binary's output (sampled files; degenerate and boundary files always)",
+    "positions printed by cantool lie inside the text they refer to (0 <= offset <= len, column >= 1): hypothesis of "
+    "C18_cantool_lint_output, a parser fact (C04); the model itself is partial there (out of range = crash)",
 ]
 
 
+CANTOOL_ANALYZERS = [
+    "definitiontypeorder", "intervals", "lineendings", "messagenames", "multiplexedsignals", "newsymbols",
+    "nodereferences", "noreservedsignals", "requireddefinitions", "signalbounds", "signalnames",
+    "singletondefinitions", "siunits", "uniquemessageids", "uniquenodenames", "uniquesignalnames", "unitsuffixes",
+    "valuedescriptions", "version"]
+
+
 def harness_args(tier, seed):
-    n = 3000 if tier == "quick" else 40000
-    cli = 60 if tier == "quick" else 400
+    n = 3300 if tier == "quick" else 40000
+    cli = 300 if tier == "quick" else 4000   # sampled files linted by the real binary in directory batches
     return [seed, n, vlib.REPO, cli]
 
 
@@ -59,5 +92,13 @@ def run(res, replay=None):
         obs = json.load(open(replay)).get("replay", {}).get("observation", "")
         m = re.search(r"text=([0-9a-f]*)", obs)
         if m:
-            args = ["replay", m.group(1) or '""']
-    vlib.standard_run(res, "lint", args, "lint", RULE, ASSUMPTIONS)
+            args = ["replay", m.group(1) or '""', vlib.REPO]
+    stats = vlib.standard_run(res, "lint", args, "lint", RULE, ASSUMPTIONS)
+    if stats and not replay:
+        # the boundary files the generator promises (confirmed by the model in the driver) must all be there
+        kinds = stats.get("kinds", {})
+        want = ["cli-only:" + a for a in CANTOOL_ANALYZERS] + ["cli-count:%d" % k for k in (1, 2, 255, 256, 257, 512)]
+        missing = [k for k in want if not kinds.get(k)] + (["generator-miss"] if kinds.get("generator-miss") else [])
+        if missing:
+            res.violation("the lint file generator no longer produces the boundary files it promises: %s" % missing,
+                          {"correspondence": res.corr_obligations[0], "missing_kinds": missing}, no_input=True)
